@@ -1672,6 +1672,38 @@ def _to(t, *a, **k):
     return new(val_of(t))
 
 
+_UNINIT = [0]
+
+
+def _uninitialised(shape):
+    """torch.empty*: arbitrary contents, modelled as a fresh named input (drawn at random in witness searches)"""
+    _UNINIT[0] += 1
+    nm = "uninitialised_memory_%d" % _UNINIT[0]
+    shape = tuple(rep(d) for d in shape)
+    INPUTS[nm] = (shape, "real")
+    return GT(val=named(nm, shape))
+
+
+@reg("empty_like")
+def _empty_like(t, **k):
+    return _uninitialised(val_of(t).shape)
+
+
+@reg("new_empty", "new_zeros_uninit")
+def _new_empty(t, *sizes, **k):
+    if len(sizes) == 1 and isinstance(sizes[0], (list, tuple)):
+        sizes = tuple(sizes[0])
+    return _uninitialised(tuple(to_dim(s) for s in sizes))
+
+
+@reg("new_zeros")
+def _new_zeros(t, *sizes, **k):
+    if len(sizes) == 1 and isinstance(sizes[0], (list, tuple)):
+        sizes = tuple(sizes[0])
+    shape = tuple(to_dim(s) for s in sizes)
+    return new(Val(shape, tuple(fresh_ix(d) for d in shape), ZERO))
+
+
 @reg("zeros_like")
 def _zeros_like(t, **k):
     v = val_of(t)
